@@ -134,6 +134,7 @@ class Trans:
         self.lines = list(lines)
         self.pre_tables = []     # tables printed before the first R line (show..., start)
         self.results = []        # [rline, Topo|None]
+        self.mlines = {}         # result index (-1 = before the first R line) -> ["M ..."]
         self.ended = False
         self.plines = []
         tab = None
@@ -154,6 +155,8 @@ class Trans:
                 tab.append(l)
             elif l.startswith("R "):
                 self.results.append([l, None])
+            elif l.startswith("M "):
+                self.mlines.setdefault(len(self.results) - 1, []).append(l)
             elif l.startswith("E "):
                 self.ended = True
             elif l.startswith("P "):
@@ -212,11 +215,11 @@ def model_script(case, trans):
             break
         r, tab = trans.results[i]
         w = op.split(" ")[0]
-        if w in ("restrict", "dup", "xml"):
+        if w in ("restrict", "dup", "xml", "xmlt"):
             if not r.startswith("R %s rc=0 " % w) or tab is None:
                 continue
             out += table_model_lines(tab, stmap)
-            out.append({"restrict": "retopo", "dup": "dupsw", "xml": "xmlsw"}[w])
+            out.append({"restrict": "retopo", "dup": "dupsw", "xml": "xmlsw", "xmlt": "xmltsw"}[w])
         else:
             out.append(op)
         idx.append(i)
@@ -296,6 +299,8 @@ class Ref:
         self.flags = set()
         self.stats = Counter()
         # mirror of the C-side cache state, only used to recognise calls with undefined behaviour
+        self.infos = {}      # NUMA gp -> {info name: value} given by `info` header lines (exported/imported by XML)
+        self.load_env = {}   # memory-tier variables set while the synthetic topology was loaded
         self.valid = {}      # id -> CACHE_VALID
         self.cnt = {}        # id -> C-side nr_targets (stale entries included)
         self.alloc = {}      # id -> targets array non-NULL
@@ -353,7 +358,7 @@ class Ref:
     def p_loc(self, s):
         if s == "-":
             return None
-        if s in ("n", "b"):
+        if s in ("n", "b", "on"):
             return (s,)
         if s.startswith("c:"):
             return ("c", pset(s[2:]))
@@ -466,7 +471,7 @@ class Ref:
         if len(t) != 3:
             raise BadCase()
         flags = p_u64(t[2])
-        if flags & ~7 or (flags & 3) not in (1, 2):
+        if flags & ~7 or (flags & 3) not in (1, 2) or t[1] == "@null":
             return fail("reg")
         if any(a[0] == t[1] for a in self.attrs):
             return fail("reg", "EBUSY")
@@ -704,6 +709,8 @@ class Ref:
                 return fail("local")
         elif loc[0] == "b":
             return fail("local")
+        elif loc[0] == "on":
+            return Exp(None, ub="null-object")        # while (!obj->cpuset) on a NULL object
         elif loc[0] == "n":
             if not flags & 4:
                 return Exp(None, ub="null-cpuset")
@@ -789,8 +796,130 @@ class Ref:
             raise BadCase()
         return self._sw("xml")
 
+    def x_xmlt(self, t):
+        """XML round trip with HWLOC_MEMTIERS* variables set during the reload: the memory attributes
+        survive as for `xml`; the tiers (subtypes, MemoryTier, MemoryTiersNr) are judged by tiers_reference()."""
+        env = {}
+        for a in t[1:]:
+            if "=" not in a or not a.startswith("HWLOC_MEMTIERS"):
+                raise BadCase()
+            k, v = a.split("=", 1)
+            env[k] = v
+        before = self.topo
+
+        def ap(r, tab):
+            if tab is not None and r.startswith("R xmlt rc=0 "):
+                self.retopo(tab, "xml")
+
+        def chk_tiers(tab, mlines):
+            return self.judge_tiers(before, tab, mlines, env, xml=True)
+        e = Exp("R xmlt rc=0 err=OK", apply=ap, info={"tiers": chk_tiers})
+        return e
+
+    # -- memory tiers
+    def read_header(self, header, mlines):
+        """`info` / `env` / `subtype` header lines; judges the tiers computed while the synthetic topology was loaded
+        when HWLOC_MEMTIERS* variables were set for it (subtypes set by header lines come afterwards)."""
+        numa = self.numa()
+        subs = {}
+        for h in header:
+            f = h.split(" ")
+            if f[0] == "info" and len(f) == 4 and f[1].isdigit() and int(f[1]) < len(numa):
+                self.infos.setdefault(numa[int(f[1])].gp, {})[f[2]] = f[3]
+            elif f[0] == "env" and len(f) == 2 and "=" in f[1]:
+                k, v = f[1].split("=", 1)
+                self.load_env[k] = v
+            elif f[0] == "subtype" and len(f) == 3 and f[1].isdigit() and int(f[1]) < len(numa):
+                subs[numa[int(f[1])].gp] = f[2]
+        if not self.load_env or any(h.split(" ")[0] in ("pre_restrict",) for h in header):
+            return []
+        # at synthetic load no node has a subtype, info or memattr value yet
+        exp = tiers_reference([(n.gp, n.os, "-", {}, 0, 0) for n in numa], self.load_env, force=False)
+        if exp is None:
+            self.stats["tiers_unchecked_ambiguous"] += 1
+            return []
+        self.stats["tiers_checked_at_load"] += 1
+        got_nr, got_tier, msgs = None, {}, []
+        for l in mlines or []:
+            f = l.split(" ")
+            if f[1] == "tiers":
+                got_nr = f[2][3:]
+            elif f[1] == "node":
+                got_tier[int(f[2])] = f[3][5:]
+        for n in numa:
+            want = subs.get(n.gp, exp["subtype"][n.gp])
+            if n.subtype != want:
+                msgs.append("node gp=%d os=%d: subtype %s after load, forced tiers give %s" % (n.gp, n.os, n.subtype, want))
+            if exp["tier"] is not None and got_tier.get(n.gp) != exp["tier"][n.gp]:
+                msgs.append("node gp=%d os=%d: MemoryTier %s after load, forced tiers give %s" % (n.gp, n.os, got_tier.get(n.gp), exp["tier"][n.gp]))
+        if got_nr != exp["nrinfo"]:
+            msgs.append("MemoryTiersNr %s after load, expected %s" % (got_nr, exp["nrinfo"]))
+        return msgs
+
+    def node_values(self, topo):
+        """local Bandwidth / Latency of every NUMA node as hwloc__group_memory_tiers reads them: the value of
+        the first stored cpuset initiator that includes the node's cpuset (nodes without CPUs: none)"""
+        res = {}
+        for n in [o for o in topo.objs if o.type == self.NUMA]:
+            v = []
+            for id_ in (2, 3):
+                x = 0
+                tg = self.find(id_, n.gp)
+                if tg is not None and n.cpuset:
+                    for k in tg.keys:
+                        if k[0][0] == "c" and n.cpuset & ~k[0][1] == 0:
+                            x = k[1]
+                            break
+                v.append(x)
+            res[n.gp] = tuple(v)
+        return res
+
+    def judge_tiers(self, before, tab, mlines, env, xml):
+        """compare subtypes (T table) and MemoryTier / MemoryTiersNr (M lines) with tiers_reference()."""
+        if tab is None:
+            return []
+        if self.flags & {"overlap", "outside", "internal"}:
+            self.stats["tiers_unchecked_tainted"] += 1
+            return []
+        nodes = [o for o in tab.objs if o.type == self.NUMA]
+        old = {o.gp: o for o in before.objs if o.type == self.NUMA}
+        if set(old) != set(n.gp for n in nodes):
+            return ["the XML reload changed the set of NUMA nodes"]
+        got_nr, got_tier = None, {}
+        for l in mlines or []:
+            f = l.split(" ")
+            if f[1] == "tiers":
+                got_nr = f[2][3:]
+            elif f[1] == "node":
+                got_tier[int(f[2])] = f[3][5:]
+        if xml and "HWLOC_MEMTIERS_REFRESH" not in env:
+            # tiers are not recomputed for XML: subtypes and infos come back as exported
+            msgs = []
+            for n in nodes:
+                if n.subtype != old[n.gp].subtype:
+                    msgs.append("node gp=%d: subtype %s became %s without HWLOC_MEMTIERS_REFRESH" % (n.gp, old[n.gp].subtype, n.subtype))
+            self.stats["tiers_checked_norefresh"] += 1
+            return msgs
+        vals = self.node_values(tab)
+        exp = tiers_reference([(n.gp, n.os, old[n.gp].subtype, self.infos.get(n.gp, {}), vals[n.gp][0], vals[n.gp][1]) for n in nodes],
+                              env, force=xml)
+        if exp is None:
+            self.stats["tiers_unchecked_ambiguous"] += 1
+            return []
+        self.stats["tiers_checked"] += 1
+        self.stats["tiers_nr_%s" % exp["nr"]] += 1
+        msgs = []
+        for n in nodes:
+            if n.subtype != exp["subtype"][n.gp]:
+                msgs.append("node gp=%d os=%d: subtype %s, the tier algorithm gives %s" % (n.gp, n.os, n.subtype, exp["subtype"][n.gp]))
+            if exp["tier"] is not None and got_tier.get(n.gp) != exp["tier"][n.gp]:
+                msgs.append("node gp=%d os=%d: MemoryTier %s, the tier algorithm gives %s" % (n.gp, n.os, got_tier.get(n.gp), exp["tier"][n.gp]))
+        if got_nr != exp["nrinfo"]:
+            msgs.append("MemoryTiersNr %s, the tier algorithm gives %s" % (got_nr, exp["nrinfo"]))
+        return msgs
+
     # -- one step of spec evaluation
-    def step(self, i, line, rline, table):
+    def step(self, i, line, rline, table, mlines=None):
         e = self.expect(line)
         op = line.split(" ")[0]
         out = []
@@ -807,6 +936,9 @@ class Ref:
                 kind = op + (":rc" if rline.split(" ")[2:4] != e.text.split(" ")[2:4] else ":payload")
                 out.append((kind, i, "%s: expected %r got %r" % (line, e.text, rline)))
             elif " rc=0 " in rline:
+                if e.info.get("tiers"):
+                    for m in e.info["tiers"](table, mlines):
+                        out.append((op + ":tiers", i, "%s: %s" % (line, m)))
                 for k, v in e.info.items():
                     if v and k in ("hit", "ties", "trunc"):
                         self.stats[op + "_" + k] += 1
@@ -827,6 +959,179 @@ class Ref:
         if e.apply is not None:
             e.apply(rline, table)
         return out
+
+
+T_HBM, T_DRAM, T_GPU, T_SPM, T_NVM, T_CXL = 1, 2, 4, 8, 16, 32
+TIER_NAMES = {T_DRAM: "DRAM", T_HBM: "HBM", T_GPU: "GPUMemory", T_SPM: "SPM", T_NVM: "NVM", T_CXL: "CXL-DRAM",
+              T_CXL | T_DRAM: "CXL-DRAM", T_CXL | T_HBM: "CXL-HBM", T_CXL | T_GPU: "CXL-GPUMemory", T_CXL | T_SPM: "CXL-SPM",
+              T_CXL | T_NVM: "CXL-NVM"}
+
+
+def c_atof(s):
+    import re
+    m = re.match(r"\s*[-+]?(\d+\.?\d*([eE][-+]?\d+)?|\.\d+([eE][-+]?\d+)?)", s)
+    return float(m.group(0)) if m else 0.0
+
+
+def f32(x):
+    import struct
+    return struct.unpack("f", struct.pack("f", x))[0]
+
+
+def tiers_reference(nodes, env, force):
+    """Reference for hwloc_internal_memattrs_guess_memory_tiers().  nodes: [(gp, os, subtype|'-', infos, local_bw, local_lat)]
+    in logical order; env: HWLOC_MEMTIERS* variables; force: overwrite existing subtypes (XML reload with
+    HWLOC_MEMTIERS_REFRESH; always for forced tiers).  Returns {subtype: {gp: s}, tier: {gp: str}|None (not judged),
+    nr: int, nrinfo: str} or None when the C result legitimately depends on qsort's treatment of equal keys."""
+    import functools
+    subtype = {n[0]: n[2] for n in nodes}
+    notier = {"subtype": subtype, "tier": {n[0]: "-" for n in nodes}, "nr": 0, "nrinfo": "-"}
+    tiers = None                                     # [[set of os, type, bwmin, bwmax]]
+    mt = env.get("HWLOC_MEMTIERS")
+    if mt is not None:
+        if mt == "none":
+            return notier
+        tiers = []
+        for part in mt.split(";"):
+            if "=" not in part:
+                tiers = None
+                break
+            a, b = part.split("=", 1)
+            try:
+                ns = int(a, 16) if a.lower().startswith("0x") else None
+            except ValueError:
+                ns = None
+            if ns is None:
+                return None                          # not a plain 0x mask: left to hwloc_bitmap_sscanf (C04)
+            if ns == 0:
+                tiers = None
+                break
+            ty = {v.lower(): k for k, v in TIER_NAMES.items() if k != T_CXL}.get(b.lower(), 0)
+            tiers.append([set(bits(ns)), ty, 0, 0])
+        if tiers is not None:
+            force = True
+    if tiers is None:
+        bwt = f32(c_atof(env["HWLOC_MEMTIERS_BANDWIDTH_THRESHOLD"])) if "HWLOC_MEMTIERS_BANDWIDTH_THRESHOLD" in env else f32(0.1)
+        latt = f32(c_atof(env["HWLOC_MEMTIERS_LATENCY_THRESHOLD"])) if "HWLOC_MEMTIERS_LATENCY_THRESHOLD" in env else f32(0.1)
+        infos = []
+        for gp, os_, sub, inf, bw, lat in nodes:
+            ty = 0
+            if sub == "GPUMemory":
+                ty = T_GPU
+            elif inf.get("DAXType") == "NVM":
+                ty = T_NVM
+            elif inf.get("DAXType") == "SPM":
+                ty = T_SPM
+            if "CXLDevice" in inf:
+                ty = (ty & T_NVM) | T_CXL
+            infos.append((ty, bw, lat, os_))
+        # qsort by (type ascending, bandwidth descending); entries with equal keys must agree on latency
+        grp = {}
+        for ty, bw, lat, os_ in infos:
+            grp.setdefault((ty, bw), set()).add(lat)
+        if any(len(v) > 1 for v in grp.values()):
+            return None
+        infos.sort(key=lambda x: (x[0], -x[1]))
+        ranks, r = [0], 0
+        for i in range(1, len(infos)):
+            a, b = infos[i], infos[i - 1]
+            if a[0] != b[0]:
+                r += 1
+            else:
+                split = False
+                if a[1] and b[1]:
+                    ratio = f32(f32(a[1]) / f32(b[1]))
+                    if ratio < 1.0:
+                        ratio = 1.0 / ratio
+                    if abs(ratio - (1.0 + bwt)) < 1e-4:
+                        return None                  # on the threshold: float rounding decides
+                    split = ratio > 1.0 + bwt
+                if not split and a[2] and b[2]:
+                    ratio = f32(f32(a[2]) / f32(b[2]))
+                    if ratio < 1.0:
+                        ratio = 1.0 / ratio
+                    if abs(ratio - (1.0 + latt)) < 1e-4:
+                        return None
+                    split = ratio > 1.0 + latt
+                if split:
+                    r += 1
+            ranks.append(r)
+        tiers = [[set(), 0, 0, 0] for _ in range(r + 1)]
+        for (ty, bw, lat, os_), rk in zip(infos, ranks):
+            t = tiers[rk]
+            t[0].add(os_)
+            t[1] = ty
+            if not t[2]:
+                t[2] = bw
+            t[3] = bw
+        # hwloc__guess_memory_tiers_types
+        g = env.get("HWLOC_MEMTIERS_GUESS")
+        flags = set()
+        skip = False
+        if g is not None:
+            if g == "none":
+                skip = True
+            if g == "all":
+                flags |= {"spm", "node0"}
+            if "spm_is_hbm" in g:
+                flags.add("spm")
+            if "node0_is_dram" in g:
+                flags.add("node0")
+        if not skip and len(tiers) > 1:
+            unknown = [t for t in tiers if t[1] == 0]
+            spm = [t for t in tiers if t[1] == T_SPM]
+
+            def dram_hbm(t1, t2):
+                if not t1[2] or not t2[2]:
+                    return
+                if t1[2] > t2[2]:
+                    t1, t2 = t2, t1
+                if t2[2] <= t1[3] * 2:
+                    return
+                if "node0" in flags and 0 in t2[0]:
+                    return
+                t1[1], t2[1] = T_DRAM, T_HBM
+            if len(unknown) == 2 and not spm:
+                dram_hbm(unknown[0], unknown[1])
+            elif len(unknown) == 1 and len(spm) == 1:
+                dram_hbm(unknown[0], spm[-1])
+            if "spm" in flags:
+                for t in tiers:
+                    if t[1] == T_SPM:
+                        t[1] = T_HBM
+            if "node0" in flags:
+                for t in tiers:
+                    if 0 in t[0] and t[1] == 0:
+                        t[1] = T_DRAM
+                        break
+        # qsort(compare_tiers_by_bw_and_type): judge the order only when the comparator is a strict total order here
+
+        def cmp(a, b):
+            if a[2] and b[2]:
+                if a[2] + a[3] > b[2] + b[3]:
+                    return -1
+                if a[2] + a[3] < b[2] + b[3]:
+                    return 1
+            return (a[1] > b[1]) - (a[1] < b[1])
+        order = sorted(tiers, key=functools.cmp_to_key(cmp))
+        strict = all(cmp(order[i], order[j]) < 0 for i in range(len(order)) for j in range(i + 1, len(order)))
+        tiers = order if strict else tiers
+        judge_order = strict
+    else:
+        judge_order = True
+    nr = len(tiers)
+    tier = {}
+    for gp, os_, sub, inf, bw, lat in nodes:
+        tier[gp] = "-"
+        for j, t in enumerate(tiers):
+            if os_ in t[0]:
+                name = TIER_NAMES.get(t[1])
+                if (sub == "-" or force) and name is not None:
+                    subtype[gp] = name
+                if nr > 1:
+                    tier[gp] = str(j)
+                break
+    return {"subtype": subtype, "tier": tier if judge_order else None, "nr": nr, "nrinfo": str(nr) if nr > 1 else "-"}
 
 
 def default_nodeset_algo(nodes, root, index_quirk):
@@ -869,11 +1174,12 @@ def spec_eval(case, trans, types=None):
         return [("no-table", -1, "no topology table after start (synthetic description failed to load?)")], ref
     ref.topo = st
     out = []
+    out += [("start:tiers", -1, m) for m in ref.read_header(case.header, trans.mlines.get(-1))]
     for i, op in enumerate(case.ops):
         if i >= len(trans.results):
             break
         r, tab = trans.results[i]
-        out += ref.step(i, op, r, tab)
+        out += ref.step(i, op, r, tab, trans.mlines.get(i))
     return out, ref
 
 
@@ -1167,6 +1473,8 @@ class OpGen:
         w = dict(self.WEIGHTS)
         if stream == "internal":
             w["iset"] = 14
+        if stream == "tiers":       # memory tiers: local bandwidth/latency values, then XML reloads with HWLOC_MEMTIERS* set
+            w = {"set": 6, "xmlt": 14, "defnodes": 6, "restrict": 3, "get": 2, "bestt": 2, "xml": 1, "dup": 1, "tierset": 12}
         if stream == "hetero":      # default nodeset / local nodes on heterogeneous machines, through restrict/dup/xml
             w.update({"defnodes": 30, "local": 12, "restrict": 9, "xml": 4, "dup": 3, "set": 10, "get": 5, "targets": 3,
                       "inits": 2, "bestt": 3, "besti": 2, "reg": 2})
@@ -1397,6 +1705,43 @@ class OpGen:
             keep |= 1 << rng.choice([50, 80])
         return "restrict %s %d" % (fset(keep), rng.choice([0, 0, 1, 1, 2, 3]))
 
+    def g_tierset(self):
+        """local bandwidth (id 2) or latency (id 3) of a NUMA node, from a small palette so that nodes fall into
+        equal / close (<10%) / clearly different (>2x) classes; latency is a function of the bandwidth class"""
+        rng = self.rng
+        if not hasattr(self, "bwpal"):
+            base = rng.choice([100, 1000, 40000])
+            self.bwpal = [base, base, base + base // 25, base + (base * 3) // 20, base + base // 2, base * 3, base * 10]
+            self.latof = {b: rng.choice([0, 10, 10, 50, 200]) for b in self.bwpal}
+            self.nodebw = {}
+        numa = [n for n in self.ref.numa()]
+        n = rng.choice(numa)
+        if not n.cpuset:
+            return "set 2 %d c:%s 0 %d" % (n.gp, fset(self.ref.topo.root), rng.choice(self.bwpal))
+        if n.gp in self.nodebw and rng.random() < 0.5:
+            lat = self.latof[self.nodebw[n.gp]]
+            if lat:
+                return "set 3 %d c:%s 0 %d" % (n.gp, fset(n.cpuset), lat)
+        bw = rng.choice(self.bwpal)
+        self.nodebw[n.gp] = bw
+        return "set 2 %d c:%s 0 %d" % (n.gp, fset(n.cpuset), bw)
+
+    def g_xmlt(self):
+        rng = self.rng
+        env = []
+        if rng.random() < 0.85:
+            env.append("HWLOC_MEMTIERS_REFRESH=1")
+        r = rng.random()
+        if r < 0.3:
+            env.append("HWLOC_MEMTIERS_GUESS=" + rng.choice(["all", "none", "spm_is_hbm", "node0_is_dram", "spm_is_hbm,node0_is_dram", "whatever"]))
+        if rng.random() < 0.2:
+            env.append("HWLOC_MEMTIERS_BANDWIDTH_THRESHOLD=" + rng.choice(["0.01", "0.05", "0.3", "1", "5", "0", "x"]))
+        if rng.random() < 0.15:
+            env.append("HWLOC_MEMTIERS_LATENCY_THRESHOLD=" + rng.choice(["0.01", "0.5", "10"]))
+        if rng.random() < 0.25:
+            env.append("HWLOC_MEMTIERS=" + forced_tiers(rng, [n.os for n in self.ref.numa()]))
+        return "xmlt " + " ".join(env) if env else "xmlt"
+
     def g_dup(self):
         return "dup"
 
@@ -1409,6 +1754,10 @@ class OpGen:
         if id_ < 2 and rng.random() < 0.7:
             id_ = rng.choice(self.focus)
         n = rng.choice(ref.numa())
+        ty = ref.NUMA
+        pus = ref.topo.of_type(ref.types["pu"])
+        if pus and rng.random() < 0.12:       # the other type that can be addressed by os_index alone
+            n, ty = rng.choice(pus), ref.types["pu"]
         form = "%d -1" % n.gp if rng.random() < 0.5 else "-1 %d" % n.os
         if rng.random() < 0.07:
             form = "-1 -1"
@@ -1423,7 +1772,7 @@ class OpGen:
                 init = "oi:%d:%d" % (o.type, o.gp)
             else:
                 init = rng.choice(["-", "oi:3:99999", "c:0x0"])
-        return "iset %d %d %s %s %d" % (id_, ref.NUMA, form, init, self.value())
+        return "iset %d %d %s %s %d" % (id_, ty, form, init, self.value())
 
     def corrupt(self, line):
         """malformed stream: break one argument of an otherwise plausible call"""
@@ -1441,7 +1790,9 @@ class OpGen:
         if op in tgtpos:
             ch.append(("tgt", tgtpos[op], "-"))
         if op in initpos:
-            ch.append(("init", initpos[op], rng.choice(["n", "b", "c:0x0", "-"])))
+            ch.append(("init", initpos[op], rng.choice(["n", "b", "c:0x0", "-", "on"])))
+        if op == "reg":
+            ch.append(("name", 1, "@null"))
         if op in flagpos:
             ch.append(("flags", flagpos[op], rng.choice(["1", "2", "4294967296"])))
         if op == "local":
@@ -1492,16 +1843,43 @@ class Session:
         return tab
 
 
-def gen_header(rng, s, name, force=None, hetero=False):
-    """case / synth / pre_restrict / misc / mem / subtype / start.  Returns (topokind, Topo)"""
+TIER_WORDS = ["DRAM", "HBM", "NVM", "SPM", "GPUMemory", "CXL-DRAM", "CXL-HBM", "CXL-NVM", "CXL-SPM", "CXL-GPUMemory", "dram", "Bogus"]
+
+
+def forced_tiers(rng, oss):
+    """a value for HWLOC_MEMTIERS over the NUMA os_indexes `oss` (sometimes malformed / partial / `none`)"""
+    r = rng.random()
+    if r < 0.08:
+        return "none"
+    if r < 0.14:
+        return rng.choice(["0x0=DRAM", "novalue", "0x1", "=HBM", "0x1=DRAM;novalue", "0x1=HBM;0x0=DRAM", "0x1=DRAM;"])
+    oss = list(oss)
+    rng.shuffle(oss)
+    k = rng.randint(1, min(3, len(oss)))
+    parts = [oss[i::k] for i in range(k)]
+    if rng.random() < 0.3 and len(parts) > 1:
+        parts.pop()                      # some nodes in no tier
+    return ";".join("%s=%s" % (fset(sum(1 << o for o in p)), rng.choice(TIER_WORDS)) for p in parts if p)
+
+
+def gen_header(rng, s, name, force=None, hetero=False, tiers=False):
+    """case / env / synth / pre_restrict / misc / mem / subtype / info / start.  Returns (topokind, Topo)"""
     kind, desc = pick_topology(rng)
     alts = []
-    if hetero:
-        kind, alts, _ = hetero_topology(rng)
+    nn0 = None
+    if hetero or (tiers and rng.random() < 0.6):
+        kind, alts, nn0 = hetero_topology(rng)
         desc = alts.pop(0)
     if force:
         kind, desc = "scripted", force
     s.send("case " + name)
+    if tiers and rng.random() < 0.35:
+        # memory-tier knobs seen by the load of the synthetic topology itself
+        n = nn0 or rng.randint(2, 4)
+        s.send("env HWLOC_MEMTIERS=" + forced_tiers(rng, range(n)))
+        if rng.random() < 0.3:
+            s.send("env HWLOC_MEMTIERS_GUESS=" + rng.choice(["all", "none", "node0_is_dram"]))
+        kind += "+loadenv"
     o = s.send("synth " + desc)
     while "P synth rc=0" not in o and alts:      # shuffled indexes refused: same shape with default numbering
         s.script.pop()
@@ -1531,7 +1909,20 @@ def gen_header(rng, s, name, force=None, hetero=False):
     if rng.random() < 0.4:
         for _ in range(rng.randint(1, 3)):
             s.send("mem %d %d" % (rng.randrange(nn), rng.choice([0, 512, 1024, 4096])))
-    if hetero:
+    if tiers:
+        # what hwloc__group_memory_tiers looks at: GPUMemory subtype, DAXType / CXLDevice infos, pre-existing subtypes
+        for i in range(nn):
+            r = rng.random()
+            if r < 0.12:
+                s.send("subtype %d GPUMemory" % i)
+            elif r < 0.27:
+                s.send("info %d DAXType %s" % (i, rng.choice(["NVM", "SPM", "SPM", "Other"])))
+            elif r < 0.34:
+                s.send("subtype %d %s" % (i, rng.choice(["DRAM", "HBM", "Old"])))
+            if rng.random() < 0.1:
+                s.send("info %d CXLDevice cxl%d" % (i, i))
+        kind += "+tierinfo"
+    elif hetero:
         # heterogeneous subtypes: two classes dominate, some nodes without subtype
         classes = rng.sample(["DRAM", "HBM", "NVM"], 2)
         pnone = rng.choice([0.0, 0.2, 0.5])
@@ -1558,9 +1949,10 @@ def gen_case(rng, proc, name, stream, first=False):
         force = None
         if stream in ("uninit", "dupfree"):
             force = rng.choice(["pack:2 [numa] core:2 pu:1", "pack:3 [numa(memory=512)] core:2 pu:2", "numa:2 core:2 pu:1"])
-        kind, topo = gen_header(rng, s, name, force, hetero=(stream == "hetero"))
+        kind, topo = gen_header(rng, s, name, force, hetero=(stream == "hetero"), tiers=(stream == "tiers"))
         ref = Ref(proc.types)
         ref.topo = topo
+        ref.read_header([l for l in s.script if l.split(" ")[0] in ("info", "env", "subtype", "pre_restrict")], None)
         og = OpGen(rng, ref, stream)
         ops = []
         if first:
@@ -1606,7 +1998,7 @@ def gen_case(rng, proc, name, stream, first=False):
                 raise RuntimeError("no R line for %r" % line)
             ref.step(i, line, r, tab)
             i += 1
-            if line.split(" ")[0] in ("restrict", "dup", "xml"):
+            if line.split(" ")[0] in ("restrict", "dup", "xml", "xmlt"):
                 if tab is not None and r.startswith("R restrict rc=0"):
                     og.gone |= topo.root & ~tab.root
                 og.refresh()
